@@ -302,3 +302,76 @@ theorem spec_soft_idem (f1 : Cand → Option Cand) (evs : List (Ev × (Cand → 
     soft_covered hk1 _ _ hn (covered_image hk1 _)]
 
 end SoftResetIn
+
+/-! ### order independence when several routes share a neighbour (ADD-PATH receive)
+
+  C03's `C03_order_independent` asks for pairwise different neighbour addresses. With ADD-PATH
+  receive a neighbour contributes several routes (one per path-id) to a destination; what the
+  argument really needs is that no two DIFFERENT live routes tie in the whole decision process
+  (equal preference keys). Different neighbour addresses imply that; so does, for the routes of
+  one neighbour, any difference in LOCAL_PREF, AS_PATH length, ORIGIN, MED or (eBGP) age. -/
+namespace SoftResetIn
+open BestPath Lex
+
+theorem spec_sub_opCands (ops : List Op) : ∀ c ∈ spec ops, c ∈ opCands ops := by
+  have : ∀ (ops : List Op) (S : List Cand) (U : List Cand), (∀ c ∈ S, c ∈ U) →
+      (∀ c ∈ opCands ops, c ∈ U) → ∀ c ∈ ops.foldl specStep S, c ∈ U := by
+    intro ops
+    induction ops with
+    | nil => intro S U hS _ c hc; exact hS c hc
+    | cons op rest ih =>
+      intro S U hS hops c hc
+      simp only [List.foldl_cons] at hc
+      refine ih _ U ?_ ?_ c hc
+      · intro y hy
+        cases op with
+        | ann d =>
+          simp only [specStep, List.mem_cons] at hy
+          rcases hy with rfl | hy
+          · apply hops; simp [opCands, Op.cands]
+          · exact hS y (List.mem_filter.mp hy).1
+        | wd d =>
+          simp only [specStep] at hy
+          exact hS y (List.mem_filter.mp hy).1
+      · intro y hy; apply hops
+        simp only [opCands, List.flatMap_cons, List.mem_append]; right; exact hy
+  exact this ops [] _ (by simp) (fun c hc => hc)
+
+/-- two histories with the same live candidate set in which no two different live candidates
+    have the same preference key produce the same path list -/
+theorem order_independent_keys (o : Opts) (ops1 ops2 : List Op)
+    (wf : SetWF o (opCands ops1 ++ opCands ops2))
+    (distinct : (spec ops1).Pairwise (fun a b => key o a ≠ key o b))
+    (same : (spec ops1).Perm (spec ops2)) :
+    run o ops1 = run o ops2 := by
+  have wf1 : SetWF o (opCands ops1) := wf.sub (fun x hx => List.mem_append_left _ hx)
+  have wf2 : SetWF o (opCands ops2) := wf.sub (fun x hx => List.mem_append_right _ hx)
+  obtain ⟨s1, _, p1⟩ := run_inv o ops1 wf1
+  obtain ⟨s2, _, p2⟩ := run_inv o ops2 wf2
+  have hperm : (run o ops1).Perm (run o ops2) := p1.trans (same.trans p2.symm)
+  have sub1 := spec_sub_opCands ops1
+  apply List.Perm.eq_of_pairwise (le := fun a b => better o a b = true) _ s1 s2 hperm
+  intro a b ha hb hab hba
+  have ha1 : a ∈ spec ops1 := p1.subset ha
+  have hb1 : b ∈ spec ops1 := (same.symm.subset (p2.subset hb))
+  have wab : PairWF o a b := wf a (List.mem_append_left _ (sub1 a ha1)) b
+    (List.mem_append_left _ (sub1 b hb1))
+  have wba : PairWF o b a := wf b (List.mem_append_left _ (sub1 b hb1)) a
+    (List.mem_append_left _ (sub1 a ha1))
+  rw [better_eq_lex o a b wab] at hab
+  rw [better_eq_lex o b a wba] at hba
+  have hk := lexLe_antisymm _ _ (by simp [key_length]) hab hba
+  by_cases e : a = b
+  · exact e
+  · exfalso
+    rcases List.mem_iff_append.mp ha1 with ⟨l1, l2, hl⟩
+    rw [hl] at hb1 distinct
+    rw [List.pairwise_append] at distinct
+    rcases List.mem_append.mp hb1 with hb' | hb'
+    · exact distinct.2.2 b hb' a List.mem_cons_self hk.symm
+    · rw [List.mem_cons] at hb'
+      rcases hb' with rfl | hb'
+      · exact e rfl
+      · exact (List.pairwise_cons.mp distinct.2.1).1 b hb' hk
+
+end SoftResetIn
